@@ -517,10 +517,11 @@ pub fn layer_trait(req: &Value) -> Value {
 /// C20: one fixed trait-API create with two process scopes, two exec.d programs and two SBOMs; returns the byte contents
 /// of everything written (each call of the driver binary is a fresh process with a fresh hash seed)
 #[allow(deprecated)]
-pub fn layer_det(_req: &Value) -> Value {
+pub fn layer_det(req: &Value) -> Value {
+    let nested = req["names"].as_str() == Some("nested");
     use libcnb::data::layer_content_metadata::LayerTypes;
     use libcnb::layer::{Layer, LayerResult, LayerResultBuilder};
-    struct Det(PathBuf);
+    struct Det(PathBuf, bool);
     impl Layer for Det {
         type Buildpack = B;
         type Metadata = M;
@@ -534,8 +535,12 @@ pub fn layer_det(_req: &Value) -> Value {
             }
             env.insert(Scope::Launch, ModificationBehavior::Append, "Z", "z");
             let mut b = LayerResultBuilder::new(M { v: "id".into() }).env(env);
-            for n in ["p1", "p2", "p3", "p4", "p5"] {
-                b = b.exec_d_program(n, self.0.join("src/prog"));
+            if self.1 {
+                b = b.exec_d_program("web/setup-env", self.0.join("src/prog")).exec_d_program("worker/setup-env", self.0.join("src/prog2"));
+            } else {
+                for n in ["p1", "p2", "p3", "p4", "p5"] {
+                    b = b.exec_d_program(n, self.0.join("src/prog"));
+                }
             }
             b.sbom(Sbom { format: libcnb::data::sbom::SbomFormat::CycloneDxJson, data: b"a".to_vec() })
                 .sbom(Sbom { format: libcnb::data::sbom::SbomFormat::SpdxJson, data: b"b".to_vec() })
@@ -547,13 +552,17 @@ pub fn layer_det(_req: &Value) -> Value {
     std::fs::create_dir_all(root.join("L")).unwrap();
     std::fs::create_dir_all(root.join("src")).unwrap();
     std::fs::write(root.join("src/prog"), "prog").unwrap();
+    std::fs::write(root.join("src/prog2"), "prog2-bytes").unwrap();
     let ctx = build_context(&root.join("L"));
-    let r = ctx.handle_layer("n1".parse().unwrap(), Det(root.to_path_buf()));
+    let r = ctx.handle_layer("n1".parse().unwrap(), Det(root.to_path_buf(), nested));
     let mut snap = snapshot(&root.join("L"));
     if let Value::Array(a) = &mut snap {
         for e in a.iter_mut() {
             if let Value::Object(o) = e {
-                o.remove("bytes");
+                let keep = nested && o.get("path").and_then(|p| p.as_str()).is_some_and(|p| p.contains("exec.d"));
+                if !keep {
+                    o.remove("bytes");
+                }
             }
         }
     }
